@@ -487,6 +487,11 @@ def env_name_strings():
         yield N.o + b + N.a + e + N.o
         yield '$' + b + N.a + e + '$'
         yield b + ' ' + N.a + ' ' + e + '\n'
+    # a verbatim-like body that quotes a closer whose name merely starts or ends with the environment's own name
+    for v, other in (('verbatim', 'verbatimtab'), ('verbatim', 'verbatim*'), ('listing', 'listings'), ('listing', 'lstlisting'),
+                     ('Verbatim', 'Verbatimx'), ('lstlisting', 'lstlisting2'), ('verbatimtab', 'verbatimtabs')):
+        yield '\\begin{%s}%s\\end{%s}%s\\end{%s}' % (v, N.a, other, N.b, v)
+        yield '%s\\begin{%s}\\end{%s}\\end{%s}\n' % (N.a, v, other, v)
 
 
 # ---------------------------------------------------------------------------------------------
